@@ -338,7 +338,7 @@ def run_case(case):
         return {"key": chash([desc, idx]), "nontrivial": False, "counts": counts, "bad": bad[:5], "sample": None}
 
     # ---------------- reference run: on_iteration, one iterate() at a time ----------------
-    eng = engines.get(kind_)
+    eng = simhelp.kept_engine(kind_)
     eng.setup(script_ref)
     T_raw, X_raw = [raw_time(eng)], [raw_state(eng, S, n)]
     complete_at = None
@@ -428,7 +428,7 @@ def run_case(case):
     if policy == "no_sampling" or r.random() < 0.3:
         # explicit sample() after some steps (step index k means: after the k-th iterate; 0 = right after setup)
         manual = {k for k in range(0, steps_done + 1) if r.random() < (0.4 if policy == "no_sampling" else 0.15)}
-    eng = engines.get(kind_)
+    eng = simhelp.kept_engine(kind_)
     eng.setup(script)
     if 0 in manual:
         eng.sample()
